@@ -82,7 +82,9 @@ SerFields(v, T, i) ==
                     L(j) == IF j > Len(x.a) THEN <<>> ELSE Cat(SerElem(f.key, x.a[j], f.ty.of), L(j + 1)) IN
                 Cat(L(1), rest)
             ELSE Cat(SerElem(f.key, x, f.ty), rest)
-      [] f.kind = "text" -> Cat(TextEv(PrimText(x, f.ty)), rest)
+      [] f.kind = "text" ->
+            IF f.ty.t = "opt" THEN (IF "z" \in DOMAIN x THEN rest ELSE Cat(TextEv(PrimText(x, f.ty.of)), rest))
+            ELSE Cat(TextEv(PrimText(x, f.ty)), rest)
       [] OTHER ->       \* $value
             IF f.ty.t = "list" THEN
                 LET RECURSIVE L(_, _)
